@@ -47,6 +47,9 @@ CAPI = {
     'PyTuple_GET_SIZE': (set(), 'size'),
     'PyList_Sort': ({PY, RC_FAIL, MUTATES}, 'rich comparisons of the elements'),
     'PyList_Reverse': ({RC_FAIL, MUTATES}, 'in-place reverse'),
+    'PyList_SetSlice': ({RC_FAIL, MUTATES, PYDEL}, 'replaces a slice; releases the old items'),
+    'PyList_GetSlice': ({NEWREF}, 'new list'),
+    'PySequence_List': ({PY, NEWREF, NULLABLE}, 'iterates an arbitrary iterable'),
     'PyList_SET_ITEM': ({STEALS, MUTATES}, 'stores without touching refcounts'),
     'PyTuple_SET_ITEM': ({STEALS, MUTATES}, 'stores without touching refcounts'),
     'PyList_GetItemRef': ({NEWREF, NULLABLE}, 'checked index, strong reference'),
